@@ -24,6 +24,8 @@ QUICK = 250
 THOROUGH = 6000
 
 
+SEEDED_SCALE = {"quick": 1.5, "thorough": 2}      # multiplies the run counts of the sampled families in plan()
+
 def plan(tier):
     n = QUICK if tier == "quick" else THOROUGH
     return [(f, n) for f in streams.FAMILIES]
